@@ -2,11 +2,14 @@ CHECK = {
     "level": "exploration",
     "assumptions": [
         "C08a: the OCC reference model in harness/storagex/c08_txn_test.go; a conflict reported for a blind write or after an ABA rewrite, and an ABA transaction committing, are allowed by the statement",
+        "C08a: Commit of a transaction without writes (read-only or write-less) is not required to verify its reads (documented: equivalent to Rollback)",
         "PostgreSQL backend: no database server in the sandbox",
     ],
     "units": [
         unit("storagex-txn", "storagex", ["storagex/model_test.go", "storagex/c08_txn_test.go"], "^TestVerif_C08_Txn$",
-             quick={"checks": 2000, "shards": 1, "cap": 600},
-             thorough={"checks": 10000, "shards": 16, "cap": 2400}, no_ulimit=True),
+             quick={"checks": 3000, "shards": 1, "cap": 600},
+             thorough={"checks": 12000, "shards": 16, "cap": 2400}, no_ulimit=True,
+             floors={"txn-inmem": {"nontrivial": 0.06}, "txn-inmem+cache": {"nontrivial": 0.06}, "txn-inmem+barrier": {"nontrivial": 0.06},
+                     "txn-inmem+cache+encoding+barrier+barrierview": {"nontrivial": 0.06}}),
     ],
 }
